@@ -36,12 +36,24 @@ contract(f"{G}:BaseGHE.cost", dict(self=ObjOf(f"{G}:GHE", sim_params=SimP()), ma
          returns=Real)
 
 # caller view of simulate (its body is verified against the superposition formula in C09)
-contract(f"{G}:GHE.simulate", dict(self=GHEsize(), method=Const(HYBRID)),
-         ensures=[("excess-of-result", lambda E: cost_value(E, E.result[0], E.result[1]) == OBJ(E.self.g_cfg, E.self.bhe.b.H)),
-                  ("simulated-height", lambda E: E.self.g_Hsim == E.self.bhe.b.H),
-                  ("frame", lambda E: And(E.self.g_cfg == E.old.self.g_cfg, E.self.bhe.b.H == E.old.self.bhe.b.H))],
-         assigns=[(lambda P: (P.self, "g_Hsim"), Real)],
-         returns=TupleOf(Real, Real), inline=False)
+OBJH = z3.Function("OBJ_HOURLY", z3.IntSort(), z3.RealSort(), z3.RealSort())  # the same for the hourly time-step method
+
+
+def _is_method(env, name):
+    m = env.get("method")
+    return getattr(m, "name", None) == name
+
+
+for _mn, _mv, _objf in (("hybrid", HYBRID, OBJ), ("hourly", HOURLY, OBJH)):
+    contract(f"{G}:GHE.simulate", dict(self=GHEsize(), method=Const(_mv)), name=f"{G}:GHE.simulate#caller-{_mn}",
+             ensures=[("excess-of-result", (lambda E, _objf=_objf: cost_value(E, E.result[0], E.result[1]) == _objf(E.self.g_cfg, E.self.bhe.b.H))),
+                      ("simulated-height", lambda E: E.self.g_Hsim == E.self.bhe.b.H),
+                      ("frame", lambda E: And(E.self.g_cfg == E.old.self.g_cfg, E.self.bhe.b.H == E.old.self.bhe.b.H))],
+             assigns=[(lambda P: (P.self, "g_Hsim"), Real)],
+             returns=TupleOf(Real, Real), inline=False).applies = (
+                 # the hourly view only where the method is literally HOURLY; everywhere else (HYBRID, or the search object's own symbolic `self.method`) OBJ stands for
+                 # "the excess under the method this object is configured with"
+                 lambda env, _mn=_mn: _is_method(env, "HOURLY") if _mn == "hourly" else not _is_method(env, "HOURLY"))
 
 contract(f"{G}:BaseGHE.compute_g_functions", dict(self=GHEsize()),
          ensures=[("family-of-three-heights", lambda E: E.self.g_cfg == CFG3(E.old.self.g_cfg))],
@@ -49,16 +61,16 @@ contract(f"{G}:BaseGHE.compute_g_functions", dict(self=GHEsize()),
          returns=NoneT())
 
 
-def _f(E):
+def _f(E, objf=None):
     cfg = E.old.self.g_cfg if E.old is not None else E.self.g_cfg
-    return lambda h: OBJ(cfg, h)
+    return lambda h: (objf if objf is not None else OBJ)(cfg, h)
 
 
-def _size_clauses(E):
+def _size_clauses(E, objf=None):
     from contracts.utilities import _delta, _near_sign_change
 
     lo, hi = E.self.sim_params.min_height, E.self.sim_params.max_height
-    F = _f(E)
+    F = _f(E, objf)
     H = E.self.bhe.b.H
     fl, fh = F(lo), F(hi)
     differ = Or(And(fl < 0, fh > 0), And(fl > 0, fh < 0))
@@ -84,3 +96,14 @@ contract(f"{G}:GHE.size", dict(self=GHEsize(), method=Const(HYBRID)),
                    "max-height-when-undersized-everywhere", "configuration-unchanged", "simulated-height-near-returned-height")],
          assigns=[(lambda P: (P.self, "g_Hsim"), Real), (lambda P: (P.self.fields["bhe"].fields["b"], "H"), Real)],
          returns=NoneT())
+
+# the same contract for the hourly method (DesignBase recommends it as a second stage): the root is a root of the *hourly* excess
+contract(f"{G}:GHE.size", dict(self=GHEsize(), method=Const(HOURLY)), name=f"{G}:GHE.size#hourly",
+         requires=[("height-window", lambda E: E.self.sim_params.min_height < E.self.sim_params.max_height),
+                   ("non-degenerate-ends", lambda E: And(OBJH(E.self.g_cfg, E.self.sim_params.min_height) != 0,
+                                                         OBJH(E.self.g_cfg, E.self.sim_params.max_height) != 0))],
+         ensures=[(n, (lambda E, n=n: dict(_size_clauses(E, OBJH))[n])) for n in
+                  ("height-within-bounds", "root-unless-clamped", "min-height-when-oversized-everywhere",
+                   "max-height-when-undersized-everywhere", "configuration-unchanged", "simulated-height-near-returned-height")],
+         assigns=[(lambda P: (P.self, "g_Hsim"), Real), (lambda P: (P.self.fields["bhe"].fields["b"], "H"), Real)],
+         returns=NoneT()).applies = lambda env: False
